@@ -122,3 +122,40 @@ package jobconfig
 //@   requires rjc != nil
 //@   fresh result
 //@   ensures [C15] result != nil && (LabelKeyJobConfigUID in result) && result[LabelKeyJobConfigUID] == string(rjc.UID)
+
+// ---- owner lookup (C15): what "the owner JobConfig of a Job" resolves to -------------------------------------------------
+// A JobConfig is returned only without errors, and then it is the cached JobConfig (in the lister's namespace) named by a
+// controller owner reference of kind JobConfig on the Job, whose UID equals both that reference's UID and the Job's
+// job-config-uid label; every error path returns no JobConfig; a Job without a controller reference has no owner and no error.
+//@ pure ownerResolved(rj *execution.Job, ns string, jc *execution.JobConfig) bool =
+//@        jc == jcCached(ns, jc.Name) && jc.Namespace == ns && rj.Labels[LabelKeyJobConfigUID] == string(jc.UID)
+//@        && (exists i int :: 0 <= i && i < len(rj.OwnerReferences) && rj.OwnerReferences[i].Controller != nil && *rj.OwnerReferences[i].Controller
+//@              && rj.OwnerReferences[i].Kind == execution.KindJobConfig && rj.OwnerReferences[i].Name == jc.Name && rj.OwnerReferences[i].UID == jc.UID)
+//@ pure noControllerRef(rj *execution.Job) bool =
+//@        forall i int :: 0 <= i && i < len(rj.OwnerReferences) ==> rj.OwnerReferences[i].Controller == nil || !*rj.OwnerReferences[i].Controller
+
+// the lookup's result as a function of the Job, the controller reference metav1.GetControllerOf picks, and the JobConfig cache
+//@ pure ownerOf(rj *execution.Job, ns string) *execution.JobConfig =
+//@        (!hasCtrlRef(iface(rj)) || ctrlRefKind(iface(rj)) != execution.KindJobConfig) ? nil :
+//@        ((jcCached(ns, ctrlRefName(iface(rj))) == nil || jcCached(ns, ctrlRefName(iface(rj))).UID != ctrlRefUID(iface(rj))
+//@          || rj.Labels[LabelKeyJobConfigUID] != string(jcCached(ns, ctrlRefName(iface(rj))).UID)) ? nil : jcCached(ns, ctrlRefName(iface(rj))))
+
+//@ func ValidateLookupJobOwner
+//@   params rj, lister
+//@   tags C15
+//@   requires rj != nil
+//@   ensures [C15] owner-is-a-function-of-job-and-cache: result0 == ownerOf(rj, listerNS(lister))
+//@   ensures [C15] owner-is-the-cached-jobconfig-named-by-a-controller-ref: result0 != nil ==> len(result1) == 0 && ownerResolved(rj, listerNS(lister), result0)
+//@   ensures [C15] errors-return-no-owner: len(result1) > 0 ==> result0 == nil
+//@   ensures [C15] no-controller-ref-no-owner: noControllerRef(rj) ==> result0 == nil && len(result1) == 0
+//@   ensures [C15] silent-only-without-a-jobconfig-controller-ref: result0 == nil && len(result1) == 0 ==> noControllerRef(rj)
+//@        || (exists i int :: 0 <= i && i < len(rj.OwnerReferences) && rj.OwnerReferences[i].Controller != nil && *rj.OwnerReferences[i].Controller && rj.OwnerReferences[i].Kind != execution.KindJobConfig)
+
+//@ func LookupJobOwner
+//@   params rj, lister
+//@   tags C15
+//@   requires rj != nil
+//@   ensures [C15] owner-is-a-function-of-job-and-cache: result0 == ownerOf(rj, listerNS(lister))
+//@   ensures [C15] owner-is-the-cached-jobconfig-named-by-a-controller-ref: result0 != nil ==> result1 == nil && ownerResolved(rj, listerNS(lister), result0)
+//@   ensures [C15] errors-return-no-owner: result1 != nil ==> result0 == nil
+//@   ensures [C15] no-controller-ref-no-owner: noControllerRef(rj) ==> result0 == nil && result1 == nil
